@@ -1196,11 +1196,18 @@ Hseek(int32 access_id, int32 offset, int origin)
     if (HTPinquire(access_rec->ddid, NULL, NULL, &data_off, &data_len) == FAIL)
         HGOTO_ERROR(DFE_INTERNAL, FAIL);
 
-    /* calculate real offset based on the origin */
-    if (origin == DF_CURRENT)
+    /* calculate real offset based on the origin; a sum that does not fit an int32 is no valid position
+       (compared before adding: the addition itself would overflow) */
+    if (origin == DF_CURRENT) {
+        if (offset > INT32_MAX - access_rec->posn)
+            HGOTO_ERROR(DFE_BADSEEK, FAIL);
         offset += access_rec->posn;
-    if (origin == DF_END)
+    }
+    if (origin == DF_END) {
+        if ((data_len > 0 && offset > INT32_MAX - data_len) || (data_len < 0 && offset < INT32_MIN - data_len))
+            HGOTO_ERROR(DFE_BADSEEK, FAIL);
         offset += data_len;
+    }
 
     /* If we aren't moving the access records position, bypass the next bit of code */
     /* This allows seeking to offset zero in not-yet-existent data elements -QAK */
